@@ -7,7 +7,8 @@ site: the extractor reads them on every run, so a site added there shows up).
 Same construction as Props/PanicCensusAdd.lean: `Generated.panicCensusRender` is extracted from
 /repo's current source on every check run, `accountRender` is the hand-made account (written after
 reading the Rust at each site and the model), `census_render_accounted` proves that every census
-entry has account rows of the same (file, fn, kind, text) with at least its count.
+key (file, kind, text) — `unwrap` / `expect` being one kind keyed by the receiver — is counted by
+the census, over the whole file, at most as often as the account has rows for it (`coversF`).
 
 The VM model (Model/Vm.lean, VmState.lean) makes every `pop` / `peek` / `expect` / `unwrap` / `[]` /
 `unreachable!` of `interpret` an explicit `.panic "<file>:<line> …"` outcome;
@@ -63,8 +64,8 @@ def accountRender : List Row := [
    .modelled "Model/Report.lean `sourceLocation`: \"reporting.rs:25 &source[a..b]\"" T_REPORT),
 
   /- ───────────── vm/for_loop.rs ───────────── -/
-  -- for_loop.rs:225
-  (("vm/for_loop.rs", "new", "expect", "\"Should only be called on iterable values\"", 1),
+  -- for_loop.rs:225 `.expect("Should only be called on iterable values")`
+  (("vm/for_loop.rs", "new", "unwrap", "create_for_loop_iterator(&container)", 1),
    .modelled "Model/Vm.lean `stepStartIterate`: \"for_loop.rs:225 Should only be called on iterable values\"" T_VM),
   -- for_loop.rs:41
   (("vm/for_loop.rs", "next", "index", "arr[*index]", 1),
@@ -93,27 +94,38 @@ def accountRender : List Row := [
      "Tera.C14.for_string_loop_by_chars"),
 
   /- ───────────── vm/interpreter.rs ───────────── -/
-  -- interpreter.rs:189, the loop head
-  (("vm/interpreter.rs", "interpret", "expect", "\"To have a chunk\"", 1), .guarded WHY_CHUNK),
-  -- interpreter.rs:484
-  (("vm/interpreter.rs", "interpret", "expect", "\"no lineage found\"", 1),
-   .modelled "Model/Vm.lean (`super()` arm): \"interpreter.rs:484 no lineage found\"" T_VM),
-  -- interpreter.rs:63 (`rendering_error!`, first arm), 176 (`component!`), 376, 774, 822
-  (("vm/interpreter.rs", "interpret", "expect", "\"to have a chunk\"", 5), .guarded WHY_CHUNK),
-  -- interpreter.rs:73: second arm of `rendering_error!` (`span: $span`)
-  (("vm/interpreter.rs", "interpret", "expect", "\"to have a chunk\"", 1),
+  -- `state.chunk.expect("To have a chunk")` interpreter.rs:189 (the loop head) and
+  -- `state.chunk.expect("to have a chunk")` interpreter.rs:63 (`rendering_error!`, first arm),
+  -- 176 (`component!`), 376, 774, 822
+  (("vm/interpreter.rs", "interpret", "unwrap", "state.chunk", 6), .guarded WHY_CHUNK),
+  -- interpreter.rs:73: `state.chunk.expect("to have a chunk")` in the second arm of
+  -- `rendering_error!` (`span: $span`)
+  (("vm/interpreter.rs", "interpret", "unwrap", "state.chunk", 1),
    .notOnPath "the `($msg:expr, span: $span:expr)` arm of the local macro `rendering_error!` (interpreter.rs:72-78) \
      is never invoked: no expansion contains it"),
-  -- interpreter.rs:66 (`rendering_error!`, expanded at every rendering error), 785, 794, 803, 831, 843, 856
-  (("vm/interpreter.rs", "interpret", "expect", "\"to have a span for error\"", 7),
-   .modelled "Model/Vm.lean `renderingError` / `errorAt`: \"interpreter.rs:66 to have a span for error\" (SPAN_SITE), \
-     \"interpreter.rs:785 …\", \"interpreter.rs:794 …\", \"interpreter.rs:803 …\", \"interpreter.rs:831 …\", \
-     \"interpreter.rs:843 …\", \"interpreter.rs:856 …\"; Model/PathVm.lean \"interpreter.rs: to have a span for error\"" T_VM),
-  -- interpreter.rs:74: second arm of `rendering_error!`
-  (("vm/interpreter.rs", "interpret", "expect", "\"to have a span for error\"", 1),
+  -- interpreter.rs:484 `.expect("no lineage found")`
+  (("vm/interpreter.rs", "interpret", "unwrap", "state.blocks.iter().rposition(|entry|entry.0==current_block_name)", 1),
+   .modelled "Model/Vm.lean (`super()` arm): \"interpreter.rs:484 no lineage found\"" T_VM),
+  -- the eight `.expect("to have a span for error")`:
+  -- interpreter.rs:66 (`rendering_error!`, first arm, expanded at every rendering error)
+  (("vm/interpreter.rs", "interpret", "unwrap", "chunk.expand_span(&$span_range)", 1),
+   .modelled "Model/Vm.lean `renderingError`: \"interpreter.rs:66 to have a span for error\" (SPAN_SITE)" T_VM),
+  -- interpreter.rs:785 (`LoadPath`), 831 (`WritePath`)
+  (("vm/interpreter.rs", "interpret", "unwrap", "chunk.get_span_at(current_ip,0)", 2),
+   .modelled "Model/Vm.lean `errorAt`: \"interpreter.rs:785 to have a span for error\", \
+     \"interpreter.rs:831 to have a span for error\"; Model/PathVm.lean \"interpreter.rs: to have a span for error\"" T_VM),
+  -- interpreter.rs:794, 803 (`LoadPath`), 843 (`WritePath`)
+  (("vm/interpreter.rs", "interpret", "unwrap", "chunk.get_span_at(current_ip,k+1)", 3),
+   .modelled "Model/Vm.lean `errorAt` in `walkLoad` / `walkWrite`: \"interpreter.rs:794 to have a span for error\", \
+     \"interpreter.rs:803 to have a span for error\", \"interpreter.rs:843 to have a span for error\"" T_VM),
+  -- interpreter.rs:856 (`WritePath`)
+  (("vm/interpreter.rs", "interpret", "unwrap", "chunk.get_span_at(current_ip,num_attrs)", 1),
+   .modelled "Model/Vm.lean `errorAt` in `stepWritePath`: \"interpreter.rs:856 to have a span for error\"" T_VM),
+  -- interpreter.rs:74: `$span.expect("to have a span for error")`, second arm of `rendering_error!`
+  (("vm/interpreter.rs", "interpret", "unwrap", "$span", 1),
    .notOnPath "the `($msg:expr, span: $span:expr)` arm of `rendering_error!` is never invoked"),
-  -- interpreter.rs:149 (`component!`)
-  (("vm/interpreter.rs", "interpret", "expect", "\"to have kwargs\"", 1),
+  -- interpreter.rs:149 (`component!`) `kwargs.into_map().expect("to have kwargs")`
+  (("vm/interpreter.rs", "interpret", "unwrap", "kwargs.into_map()", 1),
    .modelled "Model/Vm.lean (component arm): \"interpreter.rs:149 to have kwargs\"" T_VM),
   -- interpreter.rs:572
   (("vm/interpreter.rs", "interpret", "index", "block_lineage[0]", 1),
@@ -181,11 +193,14 @@ def accountRender : List Row := [
    .modelled "Model/Vm.lean `raise`: \"interpreter.rs:934 tera.templates[chunk.name]\"" T_VM),
 
   /- ───────────── vm/stack.rs ───────────── -/
-  (("vm/stack.rs", "peek", "expect", "\"to peek a value\"", 1),
+  -- stack.rs:38 `.expect("to peek a value")`
+  (("vm/stack.rs", "peek", "unwrap", "self.values.last()", 1),
    .modelled "Model/Vm.lean PEEK_SITE \"stack.rs:38 to peek a value\" (also Model/ChunkVm.lean)" T_VM),
-  (("vm/stack.rs", "peek_mut", "expect", "\"to peek a value\"", 1),
+  -- stack.rs:49 `.expect("to peek a value")`
+  (("vm/stack.rs", "peek_mut", "unwrap", "self.values.last_mut()", 1),
    .modelled "Model/Vm.lean PEEK_MUT_SITE \"stack.rs:49 to peek a value\"" T_VM),
-  (("vm/stack.rs", "pop", "expect", "\"to have a value\"", 1),
+  -- stack.rs:33 `.expect("to have a value")`
+  (("vm/stack.rs", "pop", "unwrap", "self.values.pop()", 1),
    .modelled "Model/Vm.lean POP_SITE \"stack.rs:33 to have a value\" (also Model/ChunkVm.lean, Model/PathVm.lean; \
      the abstract stack discipline: Tera.C07Compile.compile_stack_discipline)" T_VM)
 ]
@@ -203,9 +218,10 @@ theorem census_render_accounted : coversF Generated.panicCensusRender accountRen
 example : coversF (("vm/interpreter.rs", "interpret", "unwrap", "Some(1)", 1) :: Generated.panicCensusRender)
     accountRender = false := by decide
 
-/-- a ninth `expect("to have a span for error")` is not covered (the two rows add up to eight) -/
-example : covers [("vm/interpreter.rs", "interpret", "expect", "\"to have a span for error\"", 9)]
-    accountRender = false := by decide
+/-- an eighth `state.chunk.expect(..)` / `.unwrap()` is not covered (the two rows add up to seven),
+whatever its message and whichever of the two methods it uses: the key is the receiver -/
+example : coversF [("vm/interpreter.rs", "interpret", "unwrap", "state.chunk", 8)] accountRender = false
+    ∧ coversF [("vm/interpreter.rs", "report_target", "unwrap", "state.chunk", 7)] accountRender = true := by decide
 
 /-- a site in a file that has none today (vm/state.rs) is not covered -/
 example : covers [("vm/state.rs", "get_value", "index", "self.for_loops[0]", 1)] accountRender = false := by decide
